@@ -99,7 +99,9 @@ def arg_to_int(
             raise invalid_arg_type(arg_description, "integer", value)
         value = default_value
 
-    if not isinstance(value, int):
+    if type(value) is not int:
+        # This also turns a bool (or another int subclass) into a plain int: NumPy treats a bool
+        # index as a mask, not as 0 or 1.
         try:
             return operator.index(value)
         except Exception:
